@@ -26,8 +26,9 @@ SETTERS = ("set_via_fn", "set_via_gen")
 
 def run(repo: Repo, rep, tier: str):
     pat = repo.cls("Pattern", module="rv.pattern")
+    from .. import inline
     for name in SETTERS:
-        fn = repo.own_method(pat, name)
+        fn = inline.flatten(repo, pat, repo.own_method(pat, name))
         rep.func(f"rv.pattern.Pattern.{name}")
         bulk_setter(repo, rep, "C19", pat, fn)
     ownership(repo, rep, "C19", pat)
@@ -322,9 +323,20 @@ def _pattern_store(n: ast.AST) -> Optional[ast.Assign]:
 
 
 def ownership(repo: Repo, rep, P: str, pat):
+    from .. import inline
     rel = pat.file.rel
     n_fn = 0
-    for name, fn in list(pat.methods.items()) + [(k + ".setter", v) for k, v in pat.setters.items()] + list(pat.getters.items()):
+    allfns = list(pat.methods.items()) + [(k + ".setter", v) for k, v in pat.setters.items()] + list(pat.getters.items())
+    flat = {}
+    inlined = set()
+    for name, fn in allfns:
+        il = inline.Inliner(repo, pat, pat.file)
+        flat[name] = il.flatten(fn)
+        inlined |= set(il.inlined)
+    for name, fn0 in allfns:
+        if name in inlined and name.startswith("_") and not name.startswith("__"):
+            continue          # a private helper analysed inside its callers
+        fn = flat[name]
         g = CFG(fn)
         commits = [n for n in g.nodes if commits_in(n)]
         if not commits:
